@@ -1,7 +1,8 @@
 package handshake
 
 //symgo:pkg github.com/pion/dtls/v3/pkg/protocol/handshake
-//symgo:param NCRQ quick=5 thorough=7
+//symgo:param NCRQ quick=2 thorough=4
+//symgo:param NCRQA quick=5 thorough=8
 //symgo:param NCRQV quick=1 thorough=2
 
 import (
@@ -83,10 +84,31 @@ func zzCRQRef(data []byte) (l zzCRQLayout) {
 // consumed; accepted input re-encodes to a canonical form that decodes to the same value and
 // re-encodes to itself. Odd declared signature-algorithm lengths: see zzCertificateRequestOddSigAlgs.
 //
-//symgo:entry covers=crq_accept_min,crq_accept_type,crq_accept_alg,crq_accept_ca,crq_accept_trailing,crq_reject,crq_skip_odd
+// (The quick bound is too short for a non-empty authorities vector; zzCertificateRequestDecodeCAs
+// covers that slice.)
+//
+//symgo:entry covers=crq_accept_min,crq_accept_type,crq_accept_alg,crq_accept_trailing,crq_reject,crq_skip_odd
 func zzCertificateRequestDecode() {
 	n := zzsymChoice("len", 6+zzsymParam("NCRQ"))
 	data := zzsymBytes("d", n)
+	zzCRQDecodeBody(data)
+}
+
+// CertificateRequest (DTLS 1.2), the slice of the input space with empty certificate_types and
+// signature-algorithm vectors (leading bytes 00 00 00) followed by 2..2+NCRQA arbitrary bytes (the
+// certificate_authorities length and vector, with or without trailing bytes): same claims as
+// zzCertificateRequestDecode, exercising the DistinguishedName partition.
+//
+//symgo:entry covers=crq_accept_ca,crq_accept_two_cas,crq_accept_trailing,crq_reject
+func zzCertificateRequestDecodeCAs() {
+	n := 5 + zzsymChoice("len", zzsymParam("NCRQA")+1)
+	data := zzsymBytes("d", n)
+	zzsymAssume(zzsymAnd(data[0] == 0, zzsymAnd(data[1] == 0, data[2] == 0)))
+	zzCRQDecodeBody(data)
+}
+
+func zzCRQDecodeBody(data []byte) {
+	n := len(data)
 	l := zzCRQRef(data)
 	if n < 5 {
 		l.ok = false
@@ -120,6 +142,9 @@ func zzCertificateRequestDecode() {
 	}
 	if len(l.caOff) > 0 {
 		zzsymCover("crq_accept_ca")
+	}
+	if len(l.caOff) > 1 {
+		zzsymCover("crq_accept_two_cas")
 	}
 	if l.fOff[2]+l.fLen[2] < n {
 		zzsymCover("crq_accept_trailing")
